@@ -129,14 +129,14 @@ local function typevisitor_CompositeType(context, type)
         while fieldtype.is_array do
           fieldtype = fieldtype.subtype
         end
-        defemitter:add('  ', fieldtype, ' ', field.name)
+        defemitter:add('  ', fieldtype, ' ', cdefs.quotename(field.name))
         fieldtype = field.type
         while fieldtype.is_array do
           defemitter:add('[', fieldtype.length, ']')
           fieldtype = fieldtype.subtype
         end
       else
-        defemitter:add('  ', field.type, ' ', field.name)
+        defemitter:add('  ', field.type, ' ', cdefs.quotename(field.name))
       end
       defemitter:add_ln(';')
     end
@@ -346,7 +346,7 @@ function visitors.InitList(_, node, emitter, untypedinit)
           if childnode.is_Pair then
             childvalnode = childnode[2]
             field = type.fields[childnode[1]]
-            emitter:add('.', field.name, ' = ')
+            emitter:add('.', cdefs.quotename(field.name), ' = ')
           else
             childvalnode = childnode
             field = type.fields[lastfieldindex + 1]
@@ -389,9 +389,9 @@ function visitors.InitList(_, node, emitter, untypedinit)
           assert(field)
           local childvaltype = childvalnode.attr.type
           if childvaltype.is_array then
-            emitter:add_indent('((', childvaltype, '_cast*)&_tmp.', field.name, ')->a = ')
+            emitter:add_indent('((', childvaltype, '_cast*)&_tmp.', cdefs.quotename(field.name), ')->a = ')
           else
-            emitter:add_indent('_tmp.', field.name, ' = ')
+            emitter:add_indent('_tmp.', cdefs.quotename(field.name), ' = ')
           end
           local fieldtype = type.fields[field.name].type
           emitter:add_converted_val(fieldtype, childvalnode)
